@@ -42,6 +42,7 @@ type tPiece struct {
 type tGuard struct {
 	from, to *ssa.BasicBlock
 	val      ssa.Value
+	call     ssa.Instruction // for a return guard (from == nil): the call whose return this was, once known
 }
 
 type tAlt struct {
@@ -279,6 +280,14 @@ func concatAlts(a, b tAlt) tAlt {
 func feasibleTogether(a, b tAlt) bool {
 	for _, g := range a.guards {
 		if g.from == nil {
+			// two results of the same call that left the callee by different return statements
+			if g.call != nil {
+				for _, h := range b.guards {
+					if h.from == nil && h.call == g.call && h.to != g.to {
+						return false
+					}
+				}
+			}
 			continue
 		}
 		for _, h := range b.guards {
@@ -664,7 +673,24 @@ func (ev *tEval) call(fr *tFrame, c *ssa.Call) aval {
 				free = append(free, ev.val(fr, b))
 			}
 		}
-		return packResults(ev.evalFunc(f, args, free))
+		rs := ev.evalFunc(f, args, free)
+		if len(rs) > 1 {
+			// the results of ONE call come from one return statement: remember the call on their return guards so that
+			// alternatives of different returns are not combined (a template and its operand returned as a pair)
+			for _, r0 := range rs {
+				if st, ok := r0.(*aStr); ok {
+					for ai := range st.alts {
+						for gi := range st.alts[ai].guards {
+							g := &st.alts[ai].guards[gi]
+							if g.from == nil && g.call == nil && g.to != nil && g.to.Parent() == f {
+								g.call = c
+							}
+						}
+					}
+				}
+			}
+		}
+		return packResults(rs)
 	}
 	if !com.IsInvoke() {
 		var fs []*aClosure
